@@ -9,7 +9,7 @@ From Coq Require Import List ZArith NArith Bool.
 Import ListNotations.
 From Verif Require Import Common.Base Model.SampleBuilder Model.SampleBuilderSpec
   Proofs.SampleBuilderArith Proofs.SampleBuilderIter Proofs.SampleBuilder
-  Proofs.SampleBuilderScan Proofs.SampleBuilderBuild Proofs.SampleBuilderTop.
+  Proofs.SampleBuilderScan Proofs.SampleBuilderBuild Proofs.SampleBuilderFuel Proofs.SampleBuilderTop.
 Open Scope N_scope.
 
 (* ---------- uint16 / uint32 arithmetic, all values ---------- *)
@@ -77,29 +77,54 @@ Proof.
 Qed.
 Print Assumptions c31_loop_fuel_suffices.
 
+(* the loop of purgeBuffers ends within its fuel, from every state whose
+   locations are uint16 values: each iteration strictly decreases
+   |buffer| * 65536 + (filled.tail - filled.head), and the fuel is that
+   measure plus one *)
+Theorem c31_purge_fuel_suffices : forall is_head is_tail unmarshal c flush s,
+  loc_ok (filled s) /\ loc_ok (active s) ->
+  snd (iter_pos (N.succ_pos (purge_measure (purgeConsumedBuffers s)))
+                (purge_step is_head is_tail unmarshal c flush) (purgeConsumedBuffers s)) = false.
+Proof.
+  intros is_head is_tail unmarshal c fl s Hok. apply purge_fuel.
+  apply (r_ok _ _ _ _ _ (rel_purgeConsumedBuffers is_head is_tail unmarshal s)). exact Hok.
+Qed.
+Print Assumptions c31_purge_fuel_suffices.
+
 (* ---------- clause 1: every emitted sample ---------- *)
 
-(* Over every history that raises no model fault, every sample returned by a
-   Pop is the concatenation, in sequence order, of the depacketized payloads
-   of a non-empty run of pushed packets with consecutive sequence numbers whose
-   first packet is a partition head; its PacketTimestamp is the head packet's;
-   all packets but the last carry that timestamp and are not partition tails,
-   and the last carries it unless it is a partition tail.
+(* Over every history, with no further condition: every sample returned by a
+   Pop is the concatenation, in sequence order, of the depacketized payloads of
+   a non-empty run of pushed packets with consecutive sequence numbers whose
+   first packet is a partition head. *)
+Theorem c31_sample_is_run_from_partition_head : forall is_head is_tail unmarshal c ops x,
+  history_ok ops ->
+  In x (snd (run is_head is_tail unmarshal c ops)) ->
+  sample_run is_head unmarshal (pushed_of ops) x.
+Proof. exact emitted_run. Qed.
+Print Assumptions c31_sample_is_run_from_partition_head.
 
-   partial in two respects: (a) the timestamp clause "all packets share one
-   timestamp" is false for the faithful model (next theorem); (b) the guard
-   fault = 0: the model raises a fault when a loop runs out of fuel, when the
-   Go code would dereference a nil slot, or when a sample is built although
-   the active window was empty after extending its tail.  No fault was ever
-   raised in the correspondence runs (the flag is part of every compared
-   observation); fault-freedom of all histories is not proved. *)
-Theorem c31_sample_run_partial : forall is_head is_tail unmarshal c ops x,
+(* The timestamp part, over every history that raises no model fault: the
+   sample's PacketTimestamp is its head packet's; all packets but the last
+   carry that timestamp and are not partition tails, and the last carries it
+   unless it is a partition tail.
+
+   partial in two respects: (a) "all packets share one timestamp" is false for
+   the faithful model (next theorem); (b) the guard fault = 0: the model
+   raises a fault when a loop runs out of fuel, when the Go code would
+   dereference a nil slot, or when a sample is built although the active window
+   was empty after extending its tail (then fetchTimestamp has no data and the
+   Go code uses timestamp 0).  No fault was ever raised in the correspondence
+   runs (the flag is part of every compared observation); fault-freedom of all
+   histories is not proved (the purge loop's and, for non-empty windows, the
+   scan's fuel are: c31_purge_fuel_suffices, c31_loop_fuel_suffices). *)
+Theorem c31_sample_timestamp_partial : forall is_head is_tail unmarshal c ops x,
   history_ok ops ->
   fault (fst (run is_head is_tail unmarshal c ops)) = 0 ->
   In x (snd (run is_head is_tail unmarshal c ops)) ->
   sample_wf is_head is_tail unmarshal (pushed_of ops) x.
 Proof. exact emitted_wf. Qed.
-Print Assumptions c31_sample_run_partial.
+Print Assumptions c31_sample_timestamp_partial.
 
 (* full timestamp clause: forall ... x, In x (snd (run ... ops)) -> one_timestamp x.
    Refuted: buildSample tests the partition-tail flag before the timestamp
@@ -199,7 +224,7 @@ Example c31_complete_without_early_pop :
              ++ OFlush :: repeat OPop 4))).
 Proof. exact complete_witness_no_early_pop. Qed.
 
-(* the premises of c31_sample_run_partial are satisfiable on a history that emits *)
+(* the premises of c31_sample_timestamp_partial are satisfiable on a history that emits *)
 Example c31_sample_run_nontrivial :
   history_ok w_complete_ops /\
   fault (fst (run fk_is_head fk_is_tail fk_unmarshal (wcfg 50) w_complete_ops)) = 0 /\
